@@ -79,6 +79,14 @@ let rec dump_tree (t : RelLex.rkind Base.elem) : string =
   | Base.Node (k, cs) ->
     Printf.sprintf "(%d%s)" (int_of_n (RelLex.rkind_code k)) (cat "" (L.map (fun c -> " " ^ dump_tree c) cs))
 
+(* Relations::wrap_and_sort() applied to a tree, then Relations::satisfied_by: the model of the C13
+   cone (RelWrap.relations_ws, the code with the C13 patches, which /repo has: variant fixed).
+   props/C12.v, C12_wrap_invariant_any_tree: on the safe domain this is the answer for the tree itself *)
+let wrapped_sat (t : RelLex.rkind Base.elem) closure : string =
+  match RelWrap.relations_ws RelWrap.fixed t with
+  | Base.Ok w -> rb (Sat.deb_ll_sat w closure)
+  | Base.Err _ -> "ERR" | Base.Panic _ -> "PANIC" | Base.OutOfFuel -> "HANG"
+
 (* stream sat: fields = [hex text or "!"; structure; assignment; probes] *)
 let sat (fs : string list) : string =
   let st = parse_struct (L.nth fs 1) in
@@ -94,11 +102,16 @@ let sat (fs : string list) : string =
     let has_text = L.nth fs 0 <> "!" in
     let (ll, lr, ne, le) =
       if has_text then text_parts (str_of_hex (L.nth fs 0)) closure else ("-", "-", "-", "") in
+    (* lw: the tolerant reader's tree after wrap_and_sort *)
+    let lw = if not has_text then "-" else
+      match RelParse.parse_relaxed (str_of_hex (L.nth fs 0)) false with
+      | Base.Ok (t, _) -> wrapped_sat t closure
+      | Base.Err _ -> "ERR" | Base.Panic _ -> "PANIC" | Base.OutOfFuel -> "HANG" in
     let ly = if not has_text then "-" else
       match typed with None -> "ERR" | Some f -> rb (Sat.deb_lossy_sat f closure) in
     let rt = if not has_text then "-" else match typed with None -> "-" | Some _ -> "1" in
-    let lc, lcd = match typed with None -> "-", "-" | Some f ->
-      let t = Sat.deb_build_field f in rb (Sat.deb_ll_sat t closure), dump_tree t in
+    let lc, lcd, cw = match typed with None -> "-", "-", "-" | Some f ->
+      let t = Sat.deb_build_field f in rb (Sat.deb_ll_sat t closure), dump_tree t, wrapped_sat t closure in
     let yc = match typed with None -> "-" | Some f -> rb (Sat.deb_lossy_sat f closure) in
     let by lk = match typed with None -> "-" | Some f -> rb (Sat.deb_by_relation f lk) in
     let ym = by hmap in
@@ -111,9 +124,9 @@ let sat (fs : string list) : string =
         Printf.sprintf "%s/%s/%s" (opt_ver (Sat.lookup_version hmap n)) (opt_ver (closure n))
           (match pair with None -> "-" | Some p -> opt_ver (Sat.lookup_version p n)))
         (parse_probes (L.nth fs 3))) in
-    whole_hang [ll; lr; ly; lc; yc; ym; yp; sv]
-      (Printf.sprintf "ty=%s|ll=%s|lr=%s|ne=%s|le=%s|ly=%s|rt=%s|lc=%s|yc=%s|ym=%s|yp=%s|sv=%s|lcd=%s|svd=%s|lk=%s"
-         (match typed with None -> "0" | Some _ -> "1") ll lr ne le ly rt lc yc ym yp sv lcd svd lk)
+    whole_hang [ll; lr; ly; lc; yc; ym; yp; sv; lw; cw]
+      (Printf.sprintf "ty=%s|ll=%s|lr=%s|ne=%s|le=%s|ly=%s|rt=%s|lc=%s|yc=%s|ym=%s|yp=%s|sv=%s|lw=%s|cw=%s|lcd=%s|svd=%s|lk=%s"
+         (match typed with None -> "0" | Some _ -> "1") ll lr ne le ly rt lc yc ym yp sv lw cw lcd svd lk)
 
 let () = register "sat-text" sat_text
 let () = register "sat" sat
